@@ -130,6 +130,7 @@ impl ActTask for Step {
                 }
 
                 if let Some(next) = &task.node.next().upgrade() {
+                    leave_enclosing_tasks(ctx, &task, next)?;
                     ctx.sched_task(next);
                     return Ok(true);
                 }
@@ -137,6 +138,7 @@ impl ActTask for Step {
         } else if state.is_skip() {
             // if the step is skipped, still find the next to run
             if let Some(next) = task.node.next().upgrade() {
+                leave_enclosing_tasks(ctx, &task, &next)?;
                 ctx.sched_task(&next);
                 return Ok(true);
             }
@@ -179,6 +181,7 @@ impl ActTask for Step {
         } else if state.is_skip() {
             // if the step is skipped, still find the next to run
             if let Some(next) = task.node.next().upgrade() {
+                leave_enclosing_tasks(ctx, &task, &next)?;
                 ctx.sched_task(&next);
                 return Ok(false);
             }
